@@ -1241,7 +1241,9 @@ fn run_replay(path: &std::path::Path) -> i32 {
     let r = mc_core::report::load_replay(path);
     let sub = r["sub"].as_str().unwrap_or("");
     let mut code = 0;
-    let res = if sub.starts_with("local") {
+    let res = if sub == "router-entries" {
+        crate::c14e::replay(&r["history"])
+    } else if sub.starts_with("local") {
         let soft = Arc::new(SoftLog::default());
         let caps = local_cfg(&r["config"]);
         let res = mc_core::explore::replay(|| LSys::new(caps, soft.clone()), &r["history"]);
@@ -1308,6 +1310,9 @@ pub fn run(args: &Args) -> i32 {
         cov.extra.insert("soft_clause_violations".into(), json!(soft.signatures()));
         report.sub("local", cov);
     }
+
+    // (a') hand-registered routes shared between connections
+    crate::c14e::run_sub(&mut report, args);
 
     // (b)
     // (limit, paths, sequence numbers below, sequence numbers that also come with a second id)
